@@ -432,16 +432,22 @@ fn sealing(ch: &mut Choices, ctx: &CaseCtx, base: &Xstate, npre: usize, out: &mu
 /// whatever the surrounding data stack holds - same result, output, variables, dictionary, and the surrounding
 /// items stay where they were, below whatever the program left
 fn blind(ch: &mut Choices, ctx: &CaseCtx, prelude: &str, out: &mut CaseOut) {
-    let outer: Vec<String> = (0..ch.below(4) + 1).map(|i| if ch.chance(1, 4) { format!("[ {} ]", 70 + i) } else { format!("{}", 70 + i) }).collect();
-    let mut with = xs::fresh();
+    // (the surrounding items are pushed through the API so that both interpreters hold exactly the same code, heap
+    // and dictionary - `see` prints code addresses)
+    let outer_cells: Vec<Cell> = (0..ch.below(4) + 1)
+        .map(|i| if ch.chance(1, 4) { Cell::from(vec![Cell::Int(70 + i as i128)].into_iter().collect::<Xvec>()) } else { Cell::Int(70 + i as i128) })
+        .collect();
+    let outer: Vec<String> = outer_cells.iter().map(xs::render).collect();
     let mut without = xs::fresh();
-    for (x, src) in [(&mut with, format!("{} {}", outer.join(" "), prelude)), (&mut without, prelude.to_string())] {
-        x.set_insn_limit(Some(100_000)).unwrap();
-        if !matches!(guard(|| x.eval(&src)), Ok(Ok(()))) {
-            out.fail("prelude failed", src);
-            return;
-        }
-        let _ = x.read_stdout();
+    without.set_insn_limit(Some(100_000)).unwrap();
+    if !matches!(guard(|| without.eval(prelude)), Ok(Ok(()))) {
+        out.fail("prelude failed", prelude.to_string());
+        return;
+    }
+    let _ = without.read_stdout();
+    let mut with = without.clone();
+    for c in &outer_cells {
+        with.push_data(c.clone()).unwrap();
     }
     let words: Vec<String> = with.word_list().iter().map(|w| w.to_string()).collect();
     const STACKY: [&str; 14] = ["collect", "drop", "swap", "rot", "over", "dup", "nip", "depth", "unbox", "+", "concat", "length", "get", "nth"];
